@@ -110,11 +110,16 @@ def inject_faults(ch, script, g, ended, netlistable):
     out = list(script)
     nfaults = ch.rint(1, 2, "nfaults")
     tainted = set()
+    min_at = 0
     for fno in range(nfaults):
         label = f"F{fno}"
         design = refmodel.load([op for op in out if op[0] in refmodel.DESIGN_OPS])
         # where: after some module's end, before the final calls
-        ends = [i for i, op in enumerate(out) if op[0] == "end"]
+        # blocks are placed in script order, so that "earlier failure" means the same thing at
+        # generation time and at run time
+        ends = [i for i, op in enumerate(out) if op[0] == "end" and i + 1 >= min_at]
+        if not ends:
+            break
         at = ch.pick(ends, "fault_at") + 1
         done = [op[1] for op in out[:at] if op[0] == "end"]
         victim_top = ch.pick(done, "victim_top")
@@ -123,7 +128,10 @@ def inject_faults(ch, script, g, ended, netlistable):
         block = []
         call = gen_call(ch, [victim_top], netlistable)
         if kind == "parent_repair":
-            pr = plan_parent_repair(ch, out[:at], design, hier, fno)
+            # only as the first failure of a session: its edit must hit a module that is on the
+            # failing path (and therefore refused from then on), never one that an earlier failed
+            # call merely left partly elaborated (contested ground)
+            pr = plan_parent_repair(ch, out[:at], design, hier, fno) if not tainted else None
             if pr is None:
                 kind = "boundary"
             else:
@@ -138,6 +146,7 @@ def inject_faults(ch, script, g, ended, netlistable):
                 block.append(gen_call(ch, [parent], netlistable))
                 out = out[:at] + block + out[at:]
                 tainted |= set(hier)
+                min_at = at + len(block)
                 continue
         if kind == "boundary":
             # half of the time the failure is at the top of the call and late: every sub-module is
@@ -164,7 +173,9 @@ def inject_faults(ch, script, g, ended, netlistable):
             block.append(["fault", "mid", base, None, ch.weighted([(3, 1), (2, 2), (1, 3)], "nth"), label])
             offender = None
         else:
-            planted = plant_width_fault(ch, out[:at], design, hier, fno)
+            # (not in a module that an earlier failed call left partly elaborated: edits to such
+            # modules are contested ground, DESIGN 12.3)
+            planted = plant_width_fault(ch, out[:at], design, [m_ for m_ in hier if m_ not in tainted], fno)
             if planted is None:
                 offender = ch.pick(hier, "offender")
                 block.append(["fault", "boundary", ch.rint(0, seams.DEFAULT_NPASSES, "pos"), offender, 0, label])
@@ -214,6 +225,7 @@ def inject_faults(ch, script, g, ended, netlistable):
             block.append(["reset_elab"])
         out = out[:at] + block + out[at:]
         tainted |= set(hier)
+        min_at = at + len(block)
     # no late edits to modules a failed call may have left partially elaborated (contested ground)
     out = [op for op in out if op[0] != "expect_raise"]
     return out
@@ -273,9 +285,14 @@ def plan_parent_repair(ch, prefix, design, hier, fno):
             m = info["target"][1]
             if design.mods[m].style == "gen":
                 continue
-            # no live port reference may involve this instance
+            # no live port reference may involve this instance, and it is wired to plain signals
+            # only: re-assigning an instance name leaves the old instance's back-references on
+            # bundles and references behind, and what that means is not defined anywhere
             flat = str(pm.conns)
             if f"['pr', '{iname}'" in flat:
+                continue
+            own = str(pm.conns[iname])
+            if any(tag in own for tag in ("'pr'", "'nc'")):
                 continue
             cands.append((p, iname, m))
     if not cands:
@@ -291,6 +308,10 @@ def plan_parent_repair(ch, prefix, design, hier, fno):
                 cop[2] = f"{op[2]}c{fno}"
             ops.append(cop)
     conns = dict(design.mods[parent].conns[iname])
+    # the old instance is disconnected port by port first (a bare re-assignment of the name would leave
+    # its back-references on bundles behind, and what that means is not defined anywhere)
+    for port in conns:
+        ops.append(["disc", parent, iname, port])
     ops.append(["reinst", parent, iname, ["mod", clone], "setattr", conns])
     # plus new content that needs the early passes: an instance array wired to fresh signals
     xports = design.exts[0]["ports"]
@@ -305,6 +326,8 @@ def plan_parent_repair(ch, prefix, design, hier, fno):
 
 
 def plant_width_fault(ch, prefix, design, hier, fno=0):
+    if not hier:
+        return None
     """Make one scalar connection of one module in `hier` one bit too wide, through
     `connect` (the last connection wins).  Returns (offender, bad ops, repair ops)."""
     cands = []
@@ -559,6 +582,11 @@ def run(scn):
                 refusable |= hier
             failed_calls += 1
         # ---- verdicts
+        ver_now = (_design_version(ops, k), str(installed))
+        if o["ok"] and key in retry_state and retry_state[key][1] == ver_now:
+            # the very same call failed before and nothing changed since (same design, same
+            # elaborator): it must report the original error again, not succeed
+            res["findings"].append({"prop": "C08", "clause": "failed-call-succeeds-on-retry", "detail": [f"call #{k} {op} failed before with {retry_state[key][0]} and now succeeds although nothing changed"], "at": k})
         if o["ok"]:
             if f["ok"]:
                 if o.get("digest") != f.get("digest"):
@@ -579,6 +607,8 @@ def run(scn):
             if contains_offender:
                 bad_now = offenders | refusable
                 refusable |= {x for x in hier if bad_now & hierarchy(d_now, [x])}
+            if f["ok"]:
+                retry_state[key] = (exc, ver_now)
             if f["ok"]:
                 if mode == "c07":
                     res["findings"].append({"prop": "C07", "clause": "raises-where-fresh-succeeds", "detail": [f"call #{k} {op} raised {exc}; a fresh process succeeds"], "at": k})
